@@ -72,6 +72,16 @@ def handle : Handler := fun op j =>
       let e : EstimatorEval Sym Unit := { compose := Sym.compose, init := if hasInit then some .init else none, op := () }
       let pubs := (circuits.map e.prep).zip params
       pure (Json.mkObj [("pubs", Json.arr (pubs.map (fun p => Json.arr #[Json.str (symStr p.1), toJson p.2])).toArray)])
+  | "pipeline.batch_shots" => do
+    -- callers [{n, shots}] sharing one batch: the shot count with which each pub of each caller reaches the primitive
+    let cs ← (← getArr j "callers").toList.mapM (fun c => do pure ((← getNat c "n"), (← getNat c "shots")))
+    let pubsOf (i : Nat) (c : Nat × Nat) : List (SPub Nat Nat) := (List.range c.1).map (fun k => (k, i, c.2))
+    let all := cs.zipIdx.map (fun (c, i) => pubsOf i c)
+    let P : Prim (SPub Nat Nat) Nat := fun pubs => pubs.map (fun p => p.2.2)
+    let out := all.zipIdx.map (fun (mine, i) =>
+      let s : Stack (SPub Nat Nat) := .batching (all.take i).flatten (all.drop (i + 1)).flatten .plain
+      s.wrap P mine)
+    pure (Json.mkObj [("shots", toJson out)])
   | "pipeline.slice" => do
     -- a batching wrapper: the caller's slice of the batch result
     let before ← (fromJson? (← getObj j "before") : Except String (List Nat))
